@@ -172,6 +172,7 @@ class SymPaths:
         self.library = []
         self.eigh_calls = []
         self._sign_cache = {}
+        self._ent_cache = {}
         self._sync_side()
 
     def _sync_side(self):
@@ -204,6 +205,214 @@ class SymPaths:
     def register_eigh(self, m, w, V):
         self.eigh_calls.append((m, w, V))
 
+    def entailed(self, b):
+        """True / False when the hypotheses of the current path decide the symbolic boolean b, else None"""
+        if isinstance(b, bool):
+            return b
+        key = (b.key(), len(self.pm.pc))
+        cache = self.__dict__.setdefault("_ent_cache", {})
+        if key in cache:
+            return cache[key]
+        out = self._syntactic(b)
+        if out is None and self._is_linear_bool(b) and (self._hyp_syms() & self._syms_of_bool(b)):
+            try:
+                z = self.tr.bool(b)
+            except Unsupported:
+                return None
+            self._sync_side()
+            if self._cheap_unsat(z3.Not(z)):
+                out = True
+            elif self._cheap_unsat(z):
+                out = False
+        cache[key] = out
+        return out
+
+    # ---- syntactic bounds: hypotheses of the form  P >= c / P <= c  (P a polynomial normalised by its leading coefficient)
+    @staticmethod
+    def _norm_atom(op, x):
+        """x op 0  ->  (key of normalised non-constant part, kind, constant):  P kind c  with kind in '<','<=','>','>=','=='"""
+        if x.d is not None or x.has_i():
+            return None
+        n = dict(x.n)
+        c0 = n.pop((), 0)
+        if not n:
+            return None
+        lead = min(n)
+        lc = n[lead]
+        key = frozenset((m, c / lc) for m, c in n.items())
+        c = -c0 / lc
+        if op == "==":
+            return key, "==", c
+        if lc > 0:
+            return key, op, c
+        return key, {"<": ">", "<=": ">="}[op], c
+
+    def _bounds(self):
+        n = (len(self.pm.pc),)
+        if self.__dict__.get("_bounds_at") == n:
+            return self._bounds_val
+        lo, hi = {}, {}       # key -> (value, strict)
+
+        def add(b, positive=True):
+            if isinstance(b, bool):
+                return
+            if b.tag == "not":
+                return add(b.a, not positive)
+            if b.tag == "and" and positive:
+                for x in b.a:
+                    add(x, True)
+                return
+            if b.tag == "or" and not positive:
+                for x in b.a:
+                    add(x, False)
+                return
+            if b.tag != "atom":
+                return
+            na = self._norm_atom(b.a, b.b)
+            if na is None:
+                return
+            key, kind, c = na
+            if not positive:
+                if kind == "==":
+                    return
+                kind = {"<": ">=", "<=": ">", ">": "<=", ">=": "<"}[kind]
+            if kind in ("<", "<=", "=="):
+                cur = hi.get(key)
+                cand = (c, kind == "<")
+                if cur is None or cand[0] < cur[0] or (cand[0] == cur[0] and cand[1]):
+                    hi[key] = cand
+            if kind in (">", ">=", "=="):
+                cur = lo.get(key)
+                cand = (c, kind == ">")
+                if cur is None or cand[0] > cur[0] or (cand[0] == cur[0] and cand[1]):
+                    lo[key] = cand
+        for r in self.requires:
+            add(r)
+        for b, d in self.decisions_log:
+            add(b, d)
+        for b, _ in self.library:
+            add(b)
+        self._bounds_at, self._bounds_val = n, (lo, hi)
+        return lo, hi
+
+    def _syntactic(self, b):
+        """three-valued evaluation of b against the bounds known from the hypotheses"""
+        if isinstance(b, bool):
+            return b
+        if b.tag == "not":
+            r = self._syntactic(b.a)
+            return None if r is None else (not r)
+        if b.tag == "and":
+            rs = [self._syntactic(x) for x in b.a]
+            if any(r is False for r in rs):
+                return False
+            return True if all(r is True for r in rs) else None
+        if b.tag == "or":
+            rs = [self._syntactic(x) for x in b.a]
+            if any(r is True for r in rs):
+                return True
+            return False if all(r is False for r in rs) else None
+        if b.tag != "atom":
+            return None
+        na = self._norm_atom(b.a, b.b)
+        if na is None:
+            return None
+        key, kind, c = na
+        lo, hi = self._bounds()
+        l, h = lo.get(key), hi.get(key)
+        if kind in ("<", "<="):
+            if h is not None and (h[0] < c or (h[0] == c and (h[1] or kind == "<="))):
+                return True
+            if l is not None and (l[0] > c or (l[0] == c and (l[1] or kind == "<"))):
+                return False
+        elif kind in (">", ">="):
+            if l is not None and (l[0] > c or (l[0] == c and (l[1] or kind == ">="))):
+                return True
+            if h is not None and (h[0] < c or (h[0] == c and (h[1] or kind == ">"))):
+                return False
+        else:
+            if (l is not None and (l[0] > c or (l[0] == c and l[1]))) or (h is not None and (h[0] < c or (h[0] == c and h[1]))):
+                return False
+        return None
+
+    def _is_linear_bool(self, b):
+        if isinstance(b, bool):
+            return True
+        if b.tag == "atom":
+            x = b.b
+            if x.d is not None:
+                return False
+            for m in x.n:
+                if sum(e for _, e in m) > 1:
+                    return False
+                for sid, _ in m:
+                    if T.syms[sid].kind.startswith("def:"):
+                        return False
+            return True
+        if b.tag in ("and", "or"):
+            return all(self._is_linear_bool(x) for x in b.a)
+        if b.tag == "not":
+            return self._is_linear_bool(b.a)
+        return False
+
+    def _cheap_unsat(self, extra):
+        """deterministically bounded (rlimit) unsat test on the path solver; 'unknown' counts as not unsat"""
+        s = self.pm.solver
+        s.push()
+        s.add(extra)
+        s.set("rlimit", 300000)
+        s.set("timeout", 1500)
+        try:
+            r = s.check()
+        finally:
+            s.set("rlimit", 0)
+            s.set("timeout", self.pm.feas_timeout_ms)
+            s.pop()
+        return r == z3.unsat
+
+    def _syms_of_bool(self, b):
+        out = set()
+        stack = [b]
+        while stack:
+            x = stack.pop()
+            if isinstance(x, bool):
+                continue
+            if x.tag == "atom":
+                for sid in x.b.symbols():
+                    info = T.syms[sid]
+                    if info.kind == "def:ite":
+                        c, a, bb = info.data
+                        stack.append(c)
+                        out |= a.symbols() | bb.symbols()
+                    elif info.kind == "def:sqrt":
+                        out |= info.data.symbols()
+                    else:
+                        out.add(sid)
+            elif x.tag in ("and", "or"):
+                stack.extend(x.a)
+            elif x.tag == "not":
+                stack.append(x.a)
+        return out
+
+    def _hyp_syms(self):
+        """symbols constrained by a hypothesis that mentions at least two symbols, or by a path decision / library fact"""
+        n = (len(self.pm.pc), len(self.library))
+        if self.__dict__.get("_hyp_syms_at") == n:
+            return self._hyp_syms_val
+        out = set()
+        for r in self.requires:
+            if r is True:
+                continue
+            ss = self._syms_of_bool(r)
+            if len(ss) >= 2:
+                out |= ss
+        for b, _ in self.decisions_log:
+            out |= self._syms_of_bool(b)
+        for b, _ in self.library:
+            out |= self._syms_of_bool(b)
+        self._hyp_syms_at, self._hyp_syms_val = n, out
+        return out
+
     def sign_of(self, x):
         """+1 / -1 when the hypotheses of the current path entail x > 0 / x < 0, else 0 (cheap, cached per path)"""
         if x.has_i():
@@ -215,20 +424,19 @@ class SymPaths:
         cache = self.__dict__.setdefault("_sign_cache", {})
         if key in cache:
             return cache[key]
-        z = self.tr.sym(x)
-        self._sync_side()
         out = 0
-        self.pm.solver.push()
-        self.pm.solver.add(z <= 0)
-        if self.pm.solver.check() == z3.unsat:
+        pos = self._syntactic(SC.compare("<", -x))        # x > 0 ?
+        if pos is True:
             out = 1
-        self.pm.solver.pop()
-        if out == 0:
-            self.pm.solver.push()
-            self.pm.solver.add(z >= 0)
-            if self.pm.solver.check() == z3.unsat:
+        elif self._syntactic(SC.compare("<", x)) is True:
+            out = -1
+        elif self._is_linear_bool(SC.compare("<", x)):
+            z = self.tr.sym(x)
+            self._sync_side()
+            if self._cheap_unsat(z <= 0):
+                out = 1
+            elif self._cheap_unsat(z >= 0):
                 out = -1
-            self.pm.solver.pop()
         cache[key] = out
         return out
 
